@@ -158,9 +158,11 @@ def register(reg):
         want, _ = request(eng, st, S, c.self.z, c.using)
         before = view_of(S, rec_old, dom_old, rid(S)(c.self.z))
         grow, mine, down = post(eng, st, S, c.self.z, want, rec_old, rec_new, dom_old, dom_new, before)
+        grow_keys, grow_sets = grow.arg(0), grow.arg(1)  # two separate obligations: smaller queries are steadier
         kk = z3.Const(fresh_name("k"), S.Atom)
         return [("recorded-sets-stay-well-formed", z3.And(wf(eng, S, rec_new, eng.heap_field(st, "OrderedSet", "impl").parts), z3.ForAll([kk], z3.Implies(rec_new.dom[kk], eng.allocated(st, VScalar(rec_new.val[kk], OS)))))),
-                ("existing-records-keep-their-set-and-no-set-loses-a-column", grow),
+                ("existing-records-keep-their-set-object", grow_keys),
+                ("no-recorded-set-loses-a-column", grow_sets),
                 ("this-node-has-a-record-containing-the-request-and-everything-asked-before", mine),
                 ("every-source-is-asked-for-what-this-node-needs-of-it-given-its-FULL-record (also when this call added nothing new)", down)]
 
